@@ -98,3 +98,6 @@ mod tests {
 
 /// record counts at and around the powers of two a writer could plausibly chunk its work by
 pub const POW2_COUNTS: [usize; 18] = [255, 256, 257, 511, 512, 513, 1023, 1024, 1025, 2047, 2048, 2049, 4095, 4096, 4097, 8191, 8192, 8193];
+
+/// record counts at and around round decimal numbers (thresholds a maintainer would write by hand)
+pub const DEC_COUNTS: [usize; 12] = [99, 100, 101, 999, 1000, 1001, 9_999, 10_000, 10_001, 99_999, 100_000, 100_001];
